@@ -17,7 +17,7 @@ CLASSES = {
   'MessageProperties': dict(file='scales/constants.py', path='MessageProperties'),
   'AsyncResult': dict(extern=True, path=None, fields={}, bases=[]),
   # any ClientMessageSink used as a member channel; its state is an opaque observable
-  'Channel': dict(extern=True, path=None, fields={'state': 'int'}, bases=[]),
+  'Channel': dict(extern=True, path=None, fields={'state': 'int', 'on_faulted': 'Observable', 'g_opens': 'int', 'g_closes': 'int'}, ghost=['g_opens', 'g_closes'], bases=['ClientMessageSink']),
 }
 
 PREDICATES = {
@@ -220,7 +220,7 @@ FUNCTIONS = {
              # a node that has left the heap is closed exactly when its last request is released
              'implies(old(n.index) < 0 and n.g_out == 0, n.channel.state == ChannelState.Closed or n.channel.state == old(n.channel.state))',
              'implies(not (old(n.index) < 0 and n.g_out == 0), forall_ref(c, Channel, c.state == old(c.state), c.state))'],
-    modifies=['Node.load', 'Node.index', 'Node.g_out', 'list[Node].items', 'Channel.state'],
+    modifies=['Node.load', 'Node.index', 'Node.g_out', 'list[Node].items', 'Channel.state', 'Channel.g_closes'],
     ghost=[
       {'after': 'n.load -= 1', 'do': ['n.g_out = n.g_out - 1']},
       {'before': 'n.load = self.Idle', 'do': ['assert False']},   # the clamp is unreachable
@@ -253,7 +253,7 @@ def lemma_root_min(heap, n, k):
              'forall_ref(r, Node, implies(old(allocated(r)), r.g_out == old(r.g_out) and r.load == old(r.load)), r.g_out)',
              'forall_ref(c, Channel, implies(old(allocated(c)), c.state == old(c.state)), c.state)'],
     modifies=['Node.load', 'Node.index', 'Node.downq', 'Node.avg_load', 'Node.channel', 'Node.endpoint',
-              'Node.g_out', 'Node.g_inq', 'list[Node]', 'HeapBalancerSink._size', 'Channel.state', '$cls'],
+              'Node.g_out', 'Node.g_inq', 'list[Node]', 'HeapBalancerSink._size', 'Channel.state', 'Channel.g_closes', '$cls'],
     allocates='any',
     ghost=[{'after': 'new_node = self.Node(sink_factory(), self.Idle, self._size, endpoint)',
             'do': ['new_node.g_out = 0', 'new_node.g_inq = False']}],
@@ -279,7 +279,7 @@ def lemma_root_min(heap, n, k):
              'implies(old(put_called[0]), forall_ref(r, Node, r.g_out == old(r.g_out) and r.load == old(r.load), r.g_out) and self._size == old(self._size))',
              'implies(not old(put_called[0]), n.g_out == old(n.g_out) - 1)',
              'forall_ref(r, Node, implies(r != n, r.g_out == old(r.g_out)), r.g_out)'],
-    modifies=['Node.load', 'Node.index', 'Node.g_out', 'list[Node]', 'list[bool]', 'Channel.state',
+    modifies=['Node.load', 'Node.index', 'Node.g_out', 'list[Node]', 'list[bool]', 'Channel.state', 'Channel.g_closes',
               'HeapBalancerSink._size'],
     props=['C04'],
   ),
@@ -292,7 +292,7 @@ def lemma_root_min(heap, n, k):
     ensures=[],
     modifies=['Node.load', 'Node.index', 'Node.downq', 'Node.g_inq', 'Node.g_rank', 'Node.g_out', 'list[Node]',
               'HeapBalancerSink._downq', 'HeapBalancerSink._size', 'deque[tuple[any,any]]',
-              'Props.endpoint', 'Props.has_endpoint', 'Channel.state', 'list[bool]'],
+              'Props.endpoint', 'Props.has_endpoint', 'Channel.state', 'Channel.g_closes', 'list[bool]'],
     allocates=True,
     ghost=[
       {'after': 'n = self.__Get()', 'do': [
@@ -338,7 +338,7 @@ def lemma_root_min(heap, n, k):
              'forall_ref(r, Node, r.g_out == old(r.g_out), r.g_out)',
              'implies(not result, self._size == old(self._size))',
              'implies(result, self._size == old(self._size) - 1)'],
-    modifies=['Node.index', 'list[Node]', 'HeapBalancerSink._size', 'Channel.state'],
+    modifies=['Node.index', 'list[Node]', 'HeapBalancerSink._size', 'Channel.state', 'Channel.g_closes'],
     props=['C03', 'C04', 'C05'],
   ),
 }
@@ -351,17 +351,23 @@ EXTERNS = {
     params=[('sink_stack', 'ClientMessageSinkStack'), ('msg', 'Message'), ('stream', 'any'), ('headers', 'any')],
     modifies=['Node.load', 'Node.index', 'Node.downq', 'Node.g_inq', 'Node.g_rank', 'Node.g_out', 'list[Node]',
               'HeapBalancerSink._downq', 'HeapBalancerSink._size', 'deque[tuple[any,any]]',
-              'Props.endpoint', 'Props.has_endpoint', 'Channel.state', 'list[bool]'],
+              'Props.endpoint', 'Props.has_endpoint', 'Channel.state', 'Channel.g_closes', 'list[bool]'],
     allocates=True),
   'ChannelFactory.__call__': dict(params=[], returns='Channel', fresh=True, allocates=True,
                                   notes='functools.partial(next_provider.CreateSink, properties): builds a new member channel; touches no existing object'),
   'AsyncResult.Complete': dict(params=[], returns='AsyncResult'),
+  'Channel.Open': dict(params=[], returns='AsyncResult', modifies=['Channel.g_opens'], allocates=True,
+                       ensures=['self.g_opens == old(self.g_opens) + 1',
+                                'forall_ref(c, Channel, implies(c != self, c.g_opens == old(c.g_opens)), c.g_opens)'],
+                       notes='starts opening a sink; completion is asynchronous (no observable state changes synchronously)'),
   'random.randint': dict(params=[('a', 'int'), ('b', 'int')], returns='int',
                          requires=['a <= b'], ensures=['a <= result and result <= b'],
                          notes='unconstrained choice in range: every outcome of the random draw is covered'),
   # closing a channel changes only that channel's observable state
-  'Channel.Close': dict(params=[], modifies=['Channel.state'],
+  'Channel.Close': dict(params=[], modifies=['Channel.state', 'Channel.g_closes'],
                         ensures=['forall_ref(c, Channel, implies(c != self, c.state == old(c.state)), c.state)',
+                                 'self.g_closes == old(self.g_closes) + 1',
+                                 'forall_ref(c, Channel, implies(c != self, c.g_closes == old(c.g_closes)), c.g_closes)',
                                  'self.state == ChannelState.Closed or self.state == old(self.state)'],
                         notes='ClientMessageSink.Close of a member channel (transport/pool/resurrector stack): assumed not to raise, not to yield'),
 }
